@@ -49,7 +49,16 @@ type FakeAuth struct {
 	calls  []Call
 	// optional refinements (zero values = off)
 	profileByGroups map[string]Answer // answer of /profile keyed by the "groups" parameter
+	byToken         map[string]Answer // answer of /validate (by access token) and /refresh (by refresh token)
 	delay           time.Duration     // every back-channel call is held this long (widens overlaps)
+}
+
+// ScriptByToken makes /validate answer by the access token and /refresh by the refresh token presented (falls
+// back to the script).
+func (fa *FakeAuth) ScriptByToken(m map[string]Answer) {
+	fa.mu.Lock()
+	fa.byToken = m
+	fa.mu.Unlock()
 }
 
 // ScriptProfileByGroups makes /profile answer by the question's groups parameter (falls back to the script).
@@ -134,6 +143,11 @@ func (fa *FakeAuth) serve(w http.ResponseWriter, r *http.Request) {
 	fa.mu.Lock()
 	fa.calls = append(fa.calls, c)
 	a, ok := fa.script[ep]
+	if (ep == "validate" || ep == "refresh") && fa.byToken != nil {
+		if ta, has := fa.byToken[c.Token]; has {
+			a, ok = ta, true
+		}
+	}
 	if ep == "profile" && fa.profileByGroups != nil {
 		if pa, has := fa.profileByGroups[c.Groups]; has {
 			a, ok = pa, true
